@@ -20,7 +20,10 @@ def write(prop, tier, seed, coverage, wall_s, violations, assumptions, extra=Non
     )
     if extra:
         doc.update(extra)
-    path = os.path.join(VERIF, "evidence", f"{prop}.json")
+    # VERIF_EVIDENCE_DIR: scratch location used when a seeded change is applied to /repo (the committed evidence describes the unchanged tree)
+    edir = os.environ.get("VERIF_EVIDENCE_DIR") or os.path.join(VERIF, "evidence")
+    os.makedirs(edir, exist_ok=True)
+    path = os.path.join(edir, f"{prop}.json")
     os.makedirs(os.path.dirname(path), exist_ok=True)
     tmp = path + ".tmp"
     with open(tmp, "w") as f:
